@@ -227,6 +227,11 @@ def check_range(case, r):
         exp['slice'] = exp['slice_string'] = P(ok, data[a0:a1].decode('utf-8') if ok else None)
         exp['into_range'] = [a0, a1]
         exp['from_range'] = [a0, a1]
+        # the same set of offsets through std's RangeBounds (generic code, BTreeMap::range): start included, end excluded
+        exp['start_bound'] = ['included', a0]
+        exp['end_bound'] = ['excluded', a1]
+        exp['range_bounds_contains'] = off in A
+        exp['btree_range'] = sorted({v for v in (a0, a1, b0, b1, off) if v in A})
     exp['ts_checked_add'] = a0 + b0 if a0 + b0 <= M32 else None
     exp['ts_checked_sub'] = a0 - b0 if a0 >= b0 else None
     exp['ts_add'] = P(a0 + b0 <= M32, a0 + b0)
